@@ -358,7 +358,8 @@ bool Terminal::Impl::executeRunHistoryCmd(SessionContext *s, const Args &args)
                 is_index_valid = true;
             }
         } else {
-            if (s->history.size() >= static_cast<size_t>(-index)) {
+            //! widen before negating: -INT_MIN doesn't fit into int
+            if (s->history.size() >= static_cast<size_t>(-static_cast<long long>(index))) {
                 s->curr_input = s->history.at(s->history.size() + index);
                 is_index_valid = true;
             }
